@@ -32,7 +32,9 @@ theorem c03_full_some (p u : Bytes) (mc b : Bool) (hre : UF.isRegexPattern p = f
 
 /-- Groups A and G modelled `preparePattern` + `MatchString` independently (`regexPat` through
     `searchFast`, `compiledAccepts` through the `isRegexPattern` branch of `patternToRegexp`, the `.*`
-    short-cut and `search`): on its whole domain `modelPat` is the single function `compiledAccepts`. -/
+    short-cut and `search`): on its whole domain `modelPat` is the single function `compiledAccepts`.
+    (Group P3: both go through `parseRE`, i.e. through Go's tree `goTree` for `$match-case` `/regex/`
+    patterns; mask expressions are untouched by it, `c03_mask_goTree`, Props/C03Quirk.lean.) -/
 theorem c03_models_agree (p u : Bytes) (mc b : Bool) (h : modelPat p mc u = some b) :
     Mask.compiledAccepts p mc u = b :=
   modelPat_some_compiled h
